@@ -160,6 +160,20 @@ func clip(s string) string {
 	return s
 }
 
+func init() {
+	// C19: OptionSubscribe / OptionUnsubscribe follow the option contract - an accepted
+	// subscription takes effect and can be given back exactly once, removing a topic that is not
+	// subscribed fails with the bad-value error - over every history of the SUB model (topics that
+	// are prefixes of one another included)
+	vexplore.Register("C19", func(tier string) []*vexplore.Scenario {
+		d := map[string]int{"quick": 4, "thorough": 5}[tier]
+		return []*vexplore.Scenario{
+			{Name: fmt.Sprintf("sub-subscribe-unsubscribe-options-hist-D%d", d), Mode: "hist", Reset: kit.ResetGlobals, Body: func() { histOpt(d, true) },
+				NeedCounters: []string{"delivered", "purged-by-unsubscribe", "unsubscribe-absent-badvalue"}},
+		}
+	})
+}
+
 var topics = []string{"", "a", "ab", "b", "\xff"}
 
 type mctx struct {
@@ -236,6 +250,7 @@ type world struct {
 	pubs   []pubEv  // publication alphabet
 	late   bool     // the second context is opened by an event of the history
 	short  int      // ReadQLen of the second context (0 = default)
+	contract bool   // C19: events that repeat a subscription / remove an absent one
 }
 
 func setup(nctx int) *world {
@@ -299,6 +314,26 @@ func (w *world) events() []kit.Event {
 			for _, s := range m.subs {
 				if s == t {
 					has = true
+				}
+			}
+			if w.contract {
+				if has {
+					evs = append(evs, kit.Event{Name: fmt.Sprintf("sub-again:%s:%q", m.name, t), Run: func() {
+						kit.Must("Subscribe", func() {
+							if err := m.setOpt(mangos.OptionSubscribe, t); err != nil {
+								kit.Failf("subscribe-error", "%s: Subscribe(%q) (subscribed already) returned %s", m.name, t, kit.ErrName(err))
+							}
+						})
+					}})
+				} else {
+					evs = append(evs, kit.Event{Name: fmt.Sprintf("unsub-absent:%s:%q", m.name, t), Run: func() {
+						kit.Must("Unsubscribe", func() {
+							if err := m.setOpt(mangos.OptionUnsubscribe, []byte(t)); err != mangos.ErrBadValue {
+								kit.Failf("unsubscribe-absent-result", "%s: Unsubscribe(%q) returned %s although the subscriptions are %q; want ErrBadValue", m.name, t, kit.ErrName(err), m.subs)
+							}
+						})
+						kit.Count("unsubscribe-absent-badvalue")
+					}})
 				}
 			}
 			if !has {
@@ -411,8 +446,17 @@ func (w *world) settle() {
 	}
 }
 
-func hist(depth int) {
+func hist(depth int) { histOpt(depth, false) }
+
+// histOpt: with contract set (C19) the history runs on one context pair with the topics "", "a", "ab"
+// and has two more kinds of event: subscribing to a topic that is subscribed already (accepted, no
+// effect) and unsubscribing from one that is not (ErrBadValue, no effect).
+func histOpt(depth int, contract bool) {
 	w := setup(2)
+	if contract {
+		w.contract = true
+		w.topics = []string{"", "a", "ab"}
+	}
 	// start either from nothing or from a context that already holds two subscriptions
 	if kit.ChooseFree(2) == 1 {
 		for _, t := range []string{"a", "b"} {
